@@ -69,7 +69,10 @@ impl<const M: usize> Sim<M> {
     }
 
     pub fn fallible(&self, bit: bool) -> bool {
-        bit ^ self.opts.flip_fallible
+        match self.opts.force_fallible {
+            Some(f) => f,
+            None => bit ^ self.opts.flip_fallible,
+        }
     }
 
     /// Live ledger bytes are bounded so that the sandbox survives long histories.
